@@ -29,6 +29,15 @@
 (* coordinates at the end to equal those at the start; at every Cartesian  *)
 (* frame on the way the pairwise distances of a small constellation must   *)
 (* equal the original ones, and rigid edges must keep norms.               *)
+(*                                                                         *)
+(* Representation.  "All states" includes the integer-valued ones, and the *)
+(* container a state is handed over in (float64 / int64 / float32 array,   *)
+(* Python list; Python int / numpy float32 scalars for angle tuples) is    *)
+(* not part of the physical point.  HandOver(e, r, k) is a behaviour of    *)
+(* length one: the integer coordinates k (IntArgs) are handed to the       *)
+(* conversion e in container r.  The driver calls the real function with   *)
+(* exactly that container and requires the result of the float64 hand-over *)
+(* (RepresentationIrrelevant).                                             *)
 (***************************************************************************)
 EXTENDS Integers, Sequences, FiniteSets, TLC, Json
 
@@ -108,24 +117,49 @@ ASSUME StronglyConnected == \A f \in Frames : Reach({f}) = Frames
 (***************************************************************************)
 (* State machine: a walk in the graph.                                     *)
 (***************************************************************************)
-VARIABLES start, frame, walk, point, hasVel
-vars == <<start, frame, walk, point, hasVel>>
+Reps == {"float64", "int64", "float32", "list"}
+\* functions documented to take the state RELATIVE to the observer although they start in an absolute frame
+HandedRelative == {"ecef2sez", "eci2sez"}
+\* integer-valued coordinates handed to a conversion, by the kind of its argument
+IntAbsolute == { <<7000, 200, -300, 1, 7, 2>>, <<0, 0, -6500, 7, 0, 0>>, <<-20000, 15000, 8000, -2, -3, 1>> }
+IntRelative == { <<0, 0, 100, 0, 0, 1>>, <<-295, 0, 52, 0, 7, 0>>, <<3, -4, 12, 1, 2, -2>> }
+IntGeodetic == { <<1, -2, 400>>, <<0, 3, 0>>, <<-1, 0, 35786>> }
+IntAngles   == { <<800, 1, 2, 1, 0, 0>>, <<100, 0, 4, 0, 0, 0>>, <<52, -1, 6, -2, 1, 1>> }
+IntArgs(e) == CASE e.src = "LLA"                 -> IntGeodetic
+                [] e.src \in {"RAZEL", "RADEC"}  -> IntAngles
+                [] e.src \in {"SEZ", "RSW", "NTW"} \/ e.fn \in HandedRelative -> IntRelative
+                [] OTHER                         -> IntAbsolute
+
+VARIABLES start, frame, walk, point, hasVel, rep, coords
+vars == <<start, frame, walk, point, hasVel, rep, coords>>
 
 Init == /\ start \in Starts /\ frame = start /\ walk = <<>>
         /\ point = "P" /\ hasVel = TRUE
+        /\ rep \in Reps /\ coords = <<>>
 
 \* one action per conversion function: it re-expresses the same point
-Convert(e) == /\ e.src = frame
+Convert(e) == /\ e.src = frame /\ rep = "float64"
               /\ Len(walk) < MaxLen
               /\ frame' = e.dst
               /\ walk' = Append(walk, e.fn)
               /\ hasVel' = (hasVel /\ e.vel)
-              /\ UNCHANGED <<start, point>>
+              /\ UNCHANGED <<start, point, rep, coords>>
+\* the same conversion, handed integer coordinates in another container (a behaviour of length one)
+HandOver(e) == /\ e.src = frame /\ rep # "float64" /\ walk = <<>>
+               /\ \E k \in IntArgs(e) : coords' = k
+               /\ frame' = e.dst
+               /\ walk' = <<e.fn>>
+               /\ hasVel' = e.vel
+               /\ UNCHANGED <<start, point, rep>>
 
-Next == \E e \in Edges : Convert(e)
+Next == \E e \in Edges : Convert(e) \/ HandOver(e)
 Spec == Init /\ [][Next]_vars
 
 Closed == frame = start /\ Len(walk) >= 2
+Handed == rep # "float64" /\ Len(walk) = 1
+\* the container is not part of the state: a hand-over reaches exactly the state the plain conversion reaches
+RepresentationIrrelevant ==
+  Handed => /\ point = "P" /\ frame = EdgeNamed(walk[1]).dst /\ coords \in IntArgs(EdgeNamed(walk[1]))
 
 TypeOK == /\ start \in Frames /\ frame \in Frames /\ Len(walk) <= MaxLen
           /\ \A i \in 1..Len(walk) : \E e \in Edges : e.fn = walk[i]
@@ -140,12 +174,13 @@ PointNeverChanges == [][point' = point]_vars
 VelocityBookkeeping == hasVel = (\A i \in 1..Len(walk) : EdgeNamed(walk[i]).vel)
 
 Needs(attr(_)) == \E i \in 1..Len(walk) : attr(EdgeNamed(walk[i]))
+EmitHand == Handed => PrintT("HAND " \o ToJson([fn |-> walk[1], rep |-> rep, coords |-> coords]))
 EmitWalk == Closed =>
   PrintT("WALK " \o ToJson([start |-> start, walk |-> walk, vel |-> hasVel,
                             date |-> Needs(LAMBDA e : e.date), site |-> Needs(LAMBDA e : e.site),
                             ref |-> Needs(LAMBDA e : e.ref)]))
 \* the edge table itself, for the driver (emitted once, from the initial states)
-EmitEdges == (walk = <<>> /\ start = CHOOSE s \in Starts : TRUE) =>
+EmitEdges == (walk = <<>> /\ rep = "float64" /\ start = CHOOSE s \in Starts : TRUE) =>
   PrintT("EDGES " \o ToJson([cart |-> Cartesian, edges |-> Edges, uses |-> [n \in EdgeNames |-> Uses(n)]]))
 
 AllFrames == Frames
